@@ -771,6 +771,20 @@ Proof.
   - split; [split; [lia|reflexivity]|]. split; [intros d [= <-]; reflexivity|lia].
 Qed.
 
+Lemma data_try_new_by_len l :
+  data_try_new l = match data_try_new_len (nlen l) with
+                   | Some n => Err (DataTooLong n)
+                   | None => Ok l
+                   end.
+Proof. unfold data_try_new, data_try_new_len. destruct (255 <? nlen l); reflexivity. Qed.
+
+Lemma data_try_new_len_spec n : (data_try_new_len n = None <-> n <= 255) /\ (255 < n -> data_try_new_len n = Some n).
+Proof.
+  unfold data_try_new_len. destruct (N.ltb_spec 255 n) as [H|H].
+  - split; [split; [discriminate|lia]|reflexivity].
+  - split; [split; [lia|reflexivity]|lia].
+Qed.
+
 Lemma C01_length_byte f :
   wf_frame f -> hd_error (payload f) = Some (nlen (f_data f)).
 Proof. intros W. rewrite (payload_fields f W). reflexivity. Qed.
